@@ -49,6 +49,17 @@ fn shrink_entries(e: &Entries) -> Vec<Entries> {
                 out.push(Entries::Counter { n: *n, width: *width, start: *start, stride: *stride, vlen: 0 });
             }
         }
+        Entries::Noise { n, width, start, stride, vlen, seed } => {
+            // the compressible twin first, then fewer and shorter entries
+            out.push(Entries::Counter { n: *n, width: *width, start: *start, stride: *stride, vlen: *vlen });
+            if *n > 1 {
+                out.push(Entries::Noise { n: n - 1, width: *width, start: *start, stride: *stride, vlen: *vlen, seed: *seed });
+            }
+            if *vlen > 0 {
+                out.push(Entries::Noise { n: *n, width: *width, start: *start, stride: *stride, vlen: vlen / 2, seed: *seed });
+                out.push(Entries::Noise { n: *n, width: *width, start: *start, stride: *stride, vlen: vlen - vlen / 16 - 1, seed: *seed });
+            }
+        }
     }
     out
 }
